@@ -83,3 +83,21 @@ Qed.
 Theorem drain_sync_bridge eng m s :
   drain_src drain_cut_sync (S (m_max_iter m)) 0 (m_max_iter m) eng m s = drain (m_max_iter m) eng m s.
 Proof. rewrite drain_src_spec by lia. now rewrite Nat.sub_0_r. Qed.
+
+(* ---------------- one iteration of the consumer loop of the asyncio engine (_run_event_loop) ---------------- *)
+(* shape checked on every build: dequeue; chain breaker (log, reset the counter, drop the event); on_event_received hooks;
+   process the event and settle with the counter remembered; reset the counter if the step raised nothing; an exception of the
+   step is logged and the interpreter keeps running.  Both tests are translated. *)
+Definition async_step_src (cut reset : machine -> nat -> nat -> bool) (m : machine) (ev : event) (s : st) : st :=
+  if cut m (s_raise_depth s) (m_max_iter m)
+  then logo (OCut 2) (with_rd 0 s)
+  else
+    let s1 := logo (OClock (s_now s)) (logo (OBegin (e_type ev) (e_tag ev)) s) in
+    let depth_before := s_raise_depth s1 in
+    match (process_event Async true m ev ;; settle (m_max_iter m) Async true m) s1 with
+    | (s2, None) => if reset m (s_raise_depth s2) depth_before then with_rd 0 s2 else s2
+    | (s2, Some e) => logo (OErr e) s2
+    end.
+
+Theorem async_step_bridge m ev s : async_step_src async_chain_cut async_chain_reset m ev s = async_step m ev s.
+Proof. reflexivity. Qed.
